@@ -281,6 +281,14 @@ package object
 //@ modifies nothing
 //@ ensures result == uf("rt.implements", bool, self, u)
 
+// C08: the two ways to a converter agree. createTypeConverter (NewTypeConverter, globals, elements of containers)
+// consults the typeConverters table first; getTypeConverter (struct fields, method parameters) dispatches on the
+// kind first. An initial table entry for an unnamed basic type would send the same Go type to two different
+// converters depending on the route (seed C08g added rune, i.e. int32, -> RuneConverter: int32 globals and []int32
+// elements reached scripts as one-character strings). byte (uint8) is the one deliberate entry: Go bytes are script
+// bytes. Structural obligation over the package initialiser.
+//@ scan[C08.typeconverters.init] C08 typekeys typeConverters: uint8
+
 // conv.for(c, t): c was built by the dispatcher for type t.
 //@ func createTypeConverter
 //@ props C09
